@@ -189,7 +189,7 @@ def run(ctx):
     R.check("C11-D1b disjoint partition", uses_mutated, "payload selection uses the candidates after the removal", mod=fi.module,
             node=fi.node, function=fq, expected="payloads_to_extract derives from the reduced list", found=repr(itB)[:200])
 
-    R.rule("C11-D1c pairing", 6, "pop(k) -> cache slot k; dependency d recursed and stored back under d; same patterns")
+    R.rule("C11-D1c pairing", 7, "pop(k) -> cache slot k; dependency d recursed and stored back under d; same patterns")
     k = App("elem", (itB,))
     pos = [a for a in add.args[1:] if not (isinstance(a, App) and a.op == "kw")]
     R.check("C11-D1c pairing", add.args[0] == cache and len(pos) == 2 and pos[0] == k, "cache slot keyed by the payload's own name",
@@ -223,6 +223,11 @@ def run(ctx):
     R.check("C11-D1c pairing", not unstored, "every way through an iteration of the dependency loop stores the result back (or leaves the function)",
             mod=fi.module, node=rec.node, function=fq, expected="a failure of the recursive call aborts the command",
             found=f"{len(unstored)} of {len(body_paths)} paths continue without storing: a dependency that failed half-way keeps payloads that are already in the cache")
+    # the payload popped from the envelope reaches the cache or the command fails: the hand-over is not inside a handler that goes on
+    direct_add = [e for e in lpB.args[1].args if isinstance(e, App) and e.op == "eff:call" and strip_sites(e.args[0]) == strip_sites(add)]
+    R.check("C11-D1c pairing", bool(direct_add), "a failure of add_cache_slot aborts the command (the popped payload is not dropped)", mod=fi.module,
+            node=add.node, function=fq, expected="cache.add_cache_slot(payload, envelope.value.pop(payload)) outside any handler that continues",
+            found="the hand-over sits in a try whose handler goes on: a payload that was already removed from the envelope ends up nowhere")
     R.rule("C11-D1d write set and result", 3, "nothing else in the envelope map is written; result = re-encoded envelope with the same tag")
     other = [e for e in all_effects(eff) if isinstance(e, App) and (
         (e.op in ("eff:store", "eff:delitem") and e.args[0] in (ENV, raw) and e not in back) or
